@@ -128,7 +128,7 @@ def token_checks(rep, R2, R4, enc, forms, where, flag_shift=7):
                     sh = x[3]
                     if sh[0] == "field":
                         sh = ("bin", sh[1][1].replace("WithOverflow", ""), sh[1][2], sh[1][3])
-                    if sh[0] == "bin" and sh[1] == "Sub" and sh[2][0] == "const" and sh[2][1] == flag_shift and (sh[3] == cnt or sh[3] == ("const", 0, "i32")):
+                    if sh[0] == "bin" and sh[1] == "Sub" and sh[2][0] == "const" and sh[2][1] == flag_shift and (strip_casts_(sh[3]) == cnt or strip_casts_(sh[3])[:2] == ("const", 0)):
                         good = True
                 if good:
                     seen_forms.setdefault("flag", True)
